@@ -1,10 +1,11 @@
 #!/bin/bash
 # runs every registered quick (or thorough) check in turn against /repo and prints one line per property
+# usage: run_all.sh [quick|thorough] [first property number]; OUT=<dir> writes evidence/replays there instead of /verif
 cd /verif
 tier=${1:-quick}
 for i in $(seq -w ${2:-1} 20); do
   p=C$i; t0=$(date +%s)
-  out=$(bin/govc check --property $p --tier $tier 2>&1); st=$?
+  out=$(bin/govc check --property $p --tier $tier ${OUT:+-out $OUT} 2>&1); st=$?
   echo "$p exit=$st $(( $(date +%s) - t0 ))s $(echo "$out" | grep -c '^VIOLATION') violations; $(echo "$out" | grep -v '^WARN' | tail -1 | cut -c1-150)"
   echo "$out" | grep '^VIOLATION\|^NOTE\|^KNOWN\|MACHINERY\|ERROR' | head -5
 done
